@@ -1,0 +1,32 @@
+package js_test
+
+import (
+	"context"
+	"testing"
+
+	"github.com/inspirer/textmapper/parsers/js"
+)
+
+// A TokenStream can be reused for another input after Init().
+func TestStreamReuse(t *testing.T) {
+	var s js.TokenStream
+	var p js.Parser
+	var got []int
+	listener := func(nt js.NodeType, offset, endoffset int) {
+		if nt == js.InsertedSemicolon {
+			got = append(got, offset)
+		}
+	}
+	eh := func(se js.SyntaxError) bool { return true }
+	for _, input := range []string{"a = 1 + 2 + 3", "\n\nif"} {
+		got = nil
+		s.Init(input, listener)
+		p.Init(eh, listener)
+		p.ParseExpressionSnippet(context.Background(), &s)
+		for _, offset := range got {
+			if offset > len(input) {
+				t.Errorf("ParseExpressionSnippet(%q) inserted a semicolon at %v, outside of the input", input, offset)
+			}
+		}
+	}
+}
